@@ -264,3 +264,87 @@ impl<K: Clone + PartialEq + Eq + Hash + std::fmt::Debug + std::cmp::PartialOrd, 
         self.limit
     }
 }
+
+/// verification hook: drives the real `AsyncLruCache` from outside the crate
+#[cfg(qcow2_rs_verif)]
+pub mod verif {
+    use super::*;
+
+    pub struct VerifEntry(AsyncLruCacheEntry<u64>);
+
+    impl VerifEntry {
+        pub fn addr(&self) -> usize {
+            Arc::as_ptr(&self.0) as usize
+        }
+        pub fn value(&self) -> u64 {
+            *self.0.value()
+        }
+        pub fn set_dirty(&self, d: bool) {
+            self.0.set_dirty(d)
+        }
+    }
+
+    /// (key, entry address, lru stamp, dirty, strong count)
+    pub type VerifRow = (usize, usize, usize, bool, usize);
+
+    pub struct VerifLru(AsyncLruCache<usize, u64>);
+
+    fn rows(m: &HashMap<usize, AsyncLruCacheEntry<u64>>) -> Vec<VerifRow> {
+        let mut v: Vec<VerifRow> = m
+            .iter()
+            .map(|(k, e)| {
+                (
+                    *k,
+                    Arc::as_ptr(e) as usize,
+                    e.lru.load(Ordering::Relaxed),
+                    e.is_dirty(),
+                    Arc::strong_count(e),
+                )
+            })
+            .collect();
+        v.sort();
+        v
+    }
+
+    impl VerifLru {
+        pub fn new(limit: usize) -> Self {
+            VerifLru(AsyncLruCache::new(limit))
+        }
+        pub fn put(&self, key: usize, val: u64) -> VerifEntry {
+            VerifEntry(self.0.put_into_wmap_with(key, || val))
+        }
+        pub fn remove_from_wmap(&self, key: usize) {
+            self.0.remove_from_wmap(&key)
+        }
+        pub fn commit(&self) -> Vec<(usize, VerifEntry)> {
+            self.0
+                .commit_wmap()
+                .unwrap_or_default()
+                .into_iter()
+                .map(|(k, e)| (k, VerifEntry(e)))
+                .collect()
+        }
+        pub fn get(&self, key: usize) -> Option<VerifEntry> {
+            self.0.get(key).map(VerifEntry)
+        }
+        pub fn is_empty(&self) -> bool {
+            self.0.is_empty()
+        }
+        pub fn shrink(&self) {
+            self.0.shrink()
+        }
+        pub fn dirty_entries(&self, start: usize, end: usize) -> Vec<(usize, VerifEntry)> {
+            self.0
+                .get_dirty_entries(start, end)
+                .into_iter()
+                .map(|(k, e)| (k, VerifEntry(e)))
+                .collect()
+        }
+        pub fn rmap_rows(&self) -> Vec<VerifRow> {
+            rows(&self.0.rmap.read().unwrap())
+        }
+        pub fn wmap_rows(&self) -> Vec<VerifRow> {
+            rows(&self.0.wmap.lock().unwrap())
+        }
+    }
+}
